@@ -191,6 +191,11 @@ def _required_cfi_directives(
             elif directive[0] in (
                 ".cfi_remember_state",
                 ".cfi_restore_state",
+                # These describe the procedure as a whole, not any of the
+                # instructions that are going away.
+                ".cfi_personality",
+                ".cfi_lsda",
+                ".cfi_return_column",
             ):
                 append_to.append(directive)
 
